@@ -170,6 +170,28 @@ Definition end_spec (run_returned close_returned leak : bool) : Prop :=
 Definition end_oracle (run_returned close_returned leak : bool) : bool :=
   run_returned && close_returned && negb leak.
 
+(* The cap clause for Adds whose order against the limiter's own goroutine is not known.
+   [n] Adds are issued at one instant while at least [p] earlier Adds are known to be pending,
+   and the limiter settles (every one of them has been handed over).  When the last of them is
+   handed over all [n] have been counted, so unless a signal was sent meanwhile at least [p+n]
+   are pending: if that reaches MaxPendingEvents the Add must be signalled "as soon as the
+   pending-events cap is reached", i.e. before the limiter settles.  So with [p + n >= cap] at
+   least one signal is seen at that step, whatever the interleaving.  (If no window is open the
+   first of them is signalled immediately anyway.) *)
+Definition cap_burst_spec (c : cfg) (p n sigs : Z) : Prop :=
+  match cap c with Some m => m <= p + n -> 0 < sigs | None => True end.
+
+Definition cap_burst_oracle (c : cfg) (p n sigs : Z) : bool :=
+  match cap c with Some m => if m <=? p + n then 0 <? sigs else true | None => true end.
+
+(* The first-Add clause for Adds in no known order: [n >= 1] Adds issued at one instant while
+   the limiter is idle (no window open, nothing pending).  "The first Add after an idle period is
+   signalled immediately": whichever of them is handed over first, a signal is seen at that
+   step, with no clock advance. *)
+Definition idle_burst_spec (n sigs : Z) : Prop := 0 < n -> 0 < sigs.
+
+Definition idle_burst_oracle (n sigs : Z) : bool := (n <=? 0) || (0 <? sigs).
+
 (* Overlapping Close calls while a helper goroutine is verifiably still running (the harness
    holds the run loop inside a callback of the injected clock): NO Close call may have returned
    while it was held ("Close returns only when all helper goroutines have finished" speaks of
